@@ -436,6 +436,16 @@ def classify(ctx, cid, text, real, variants, known_ids):
     return "unexplained", "real == model of the code, but no combination of the known repairs yields S"
 
 
+def lead_lines(lines, n):
+    """the result lines of the first n requests of a case"""
+    out = []
+    for l in lines:
+        if l.startswith("req ") and int(l.split()[1]) >= n:
+            break
+        out.append(l)
+    return out
+
+
 def first_diff(a, b):
     for i, (x, y) in enumerate(zip(a, b)):
         if x != y:
@@ -464,6 +474,11 @@ def evaluate(ctx, texts, label, stats, known_ids):
             ctx.violation("C14-driver-failed.txt", "c14driver %s: rc=%d\n%s" % (mode, rc, err[-2000:]), no_input=True)
             return
         variants[key] = split_cases(out)
+    rc, gout, err = driver("guard", alltext)
+    if rc != 0:
+        ctx.violation("C14-driver-failed.txt", "c14driver guard: rc=%d\n%s" % (rc, err[-2000:]), no_input=True)
+        return
+    guards = split_cases(gout)
     real = run_real(ctx, el_cases, label)
     for t in el_cases:
         cid = t.split()[1]
@@ -489,6 +504,21 @@ def evaluate(ctx, texts, label, stats, known_ids):
         if t.count("\nmodule ") >= 2 and re.search(r"^req [po]:", t, re.M):
             stats["nontrivial"].add(re.sub(r"^case \S+", "case", t))
         kind, detail = classify(ctx, cid, t, rl, v, known_ids)
+        # the prediction of whole_request_refinement_partial: inside its guard (graph + leading requests) the
+        # flat machine equals S, so the real engine must equal S there - no finding may be appealed to
+        gl = (guards.get(cid) or ["guard false 0 0"])[0].split()
+        lead = int(gl[2]) if gl[1] == "true" else 0
+        stats["guard"]["graphs_in_guard" if gl[1] == "true" else "graphs_outside"] += 1
+        stats["guard"]["requests_in_guard"] += lead
+        stats["guard"]["requests_total"] += int(gl[3])
+        if lead:
+            rs, ss, ms_ = (lead_lines(x, lead) for x in (strip_extra(rl), v["spec"], v[""]))
+            if ms_ != ss and "undetermined" not in ms_:
+                kind, detail = "theorem-vs-driver", ("the driver's model and spec differ inside the guard of "
+                                                     "whole_request_refinement_partial (%d leading requests)" % lead)
+            elif rs != ss:
+                kind, detail = "in-guard", ("real != S on the first %d requests, which are inside the guard of "
+                                            "whole_request_refinement_partial (M = S proved there)" % lead)
         ck = kind + ":" + detail if kind in ("known", "unlisted") else kind
         stats["class"][ck] = stats["class"].get(ck, 0) + 1
         if len(stats["samples"]) < 3 and kind == "agree" and t.count("\nmodule ") >= 3:
@@ -562,7 +592,8 @@ def evaluate_quiet(ctx, texts, stats, known_ids):
 def new_stats():
     return {"cases": 0, "evaluations": 0, "obs": 0, "mangle_checked": 0, "mangle_bad": [], "status": {},
             "spec_kinds": {}, "nontrivial": set(), "class": {}, "samples": [], "known_hits": {},
-            "pending": [], "bad": [], "poke_hits": [], "spelled": 0}
+            "pending": [], "bad": [], "poke_hits": [], "spelled": 0,
+            "guard": {"graphs_in_guard": 0, "graphs_outside": 0, "requests_in_guard": 0, "requests_total": 0}}
 
 
 def corpus_texts():
@@ -678,6 +709,7 @@ def run(ctx):
         "private_defines_found_under_mangled_name": stats["mangle_checked"],
         "translated_from_source": facts,
         "cases_with_respelled_paths": stats["spelled"],
+        "refinement_guard": stats["guard"],
         "axioms": pr.get("axioms", {}),
         "proof_failures": ["%s: %s" % f for f in pr["failed"]],
     })
